@@ -224,6 +224,10 @@ def main(argv=None):
     # ---- replay files -----------------------------------------------------
     lines = []
     rdir = os.path.join(ROOT, 'replays', prop)
+    if os.path.isdir(rdir):       # witnesses of earlier runs are stale
+        for fn in os.listdir(rdir):
+            if fn.endswith('.json'):
+                os.unlink(os.path.join(rdir, fn))
     seen_sig = set()
     for v in real:
         if v['sig'] in seen_sig:
